@@ -180,6 +180,60 @@ def presentations(s, tier, seed, full):
     return out
 
 
+def bfs_generators(seed):
+    gr = geom.generic_rotations(seed, 1)
+
+    def gen(s):
+        n = len(s.num)
+        per = [k for k in range(3) if s.pbc[k]]
+        yield "rot.g0", present.rotate(s, gr[0])
+        yield "trans", present.translate(s, np.array([1.7, -2.3, 0.9]))
+        if n > 1:
+            yield "perm.roll", present.permute(s, list(range(1, n)) + [0])
+        if n <= 16:
+            for k in per:
+                M = np.eye(3, dtype=int)
+                M[k, k] = 2
+                yield "super2@%d" % k, present.supercell(s, M)
+        for name, M in present.shears(s)[::2]:
+            yield name, present.basis_change(s, M)
+        if per and n <= 8:
+            yield "shift(0,-1@%d)" % per[0], present.shift_atom(s, 0, per[0], -1)
+            yield "shift(%d,+2@%d)" % (n - 1, per[-1]), present.shift_atom(s, n - 1, per[-1], 2)
+
+    return gen
+
+
+def check_bfs(s, thr, preset, seed, depth, res=None):
+    """Depth-bounded BFS over presentation words from one root; the reference model is evaluated in every state
+    (it is invariant by construction except under supercells, where disconnected copies legitimately give None)."""
+    status, exp = expected(s, thr)
+    if status != "ok":
+        return status, []
+    states, ntrans, capped = present.bfs(s, bfs_generators(seed), depth, max_states=400)
+    viol = []
+    for word, p in states:
+        want = exp[0]
+        if any(w.startswith("super") for w in word):
+            st, ep = expected(p, thr)
+            if st != "ok":
+                continue
+            want = ep[0]
+        try:
+            got = real_dim(p, thr, preset)[0]
+        except Exception as e:
+            got = "EXC:" + type(e).__name__
+        if got != want:
+            viol.append(("bfs", "/".join(word) or "root", "get_dimensionality=%r after the word %s, reference %r" % (got, list(word), want), got, want))
+    if res is not None:
+        res.counters["states"] += len(states)
+        res.counters["evaluations"] += len(states)
+        res.counters["transitions"] += ntrans
+        if capped:
+            res.counters["caps_hit"] += 1
+    return "dim=%s" % (exp[0],), viol
+
+
 def check_root(s, thr, preset, tier, seed, full, res=None):
     """Returns list of (kind, label, detail, observed, expected)."""
     status, exp = expected(s, thr)
@@ -232,6 +286,10 @@ def run_shard(shard, tier, seed):
         case = None
         try:
             outcome, viol = check_root(s, thr, preset, tier, seed, full, res)
+            if tier != "quick" and tag not in ("1", "2", "3", "2p") and kind == "exact":
+                # templates: explicit-state BFS over presentation words to depth 2
+                _, v2 = check_bfs(s, thr, preset, seed, 2, res)
+                viol = viol + v2
         except Exception as e:
             import traceback
 
@@ -258,6 +316,8 @@ def run_shard(shard, tier, seed):
 def replay(case):
     s = S.from_case(case["struct"])
     _, viol = check_root(s, case["thr"], case["preset"], "thorough", 0, case.get("full", True))
+    if case.get("family") not in ("1", "2", "3", "2p"):
+        viol = viol + check_bfs(s, case["thr"], case["preset"], 0, 2)[1]
     out, seen = [], set()
     for k, label, d, obs, exp in viol:
         if (k, label) in seen:
